@@ -23,6 +23,16 @@
 //   P5  C20: smooth ODEs, |y| = O(1), state weights 1, horizons of a few periods.
 //   P6  CPodes is never given reportTime = infinity (CPODES needs a finite tout; the
 //       AbstractIntegratorRep integrators are, since they accept it).
+//   P7  stepBy() is used with a scheduled interval only when t + interval reproduces the
+//       client's absolute scheduled time bit for bit (else stepTo), so that rounding in the
+//       client never puts a scheduled time behind a legally advanced state.
+// Judging: all invariants of a call are evaluated, the first failing one (advanced state, then
+// returned time, status/time agreement, monotonicity, termination, window, limits) is reported
+// and the sequence ends (later alarms are consequences). For CPodes the key is attributed to
+// the recognisable root situation when there is one: reinitialize at the final time; event
+// localized inside a CPODES step with the state left unchanged (interpolation off); a request
+// below CPODES' time resolution. A NaN state under a user-forced fixed step, and a StepFailed
+// after genuine step attempts, are counted outcomes.
 // Everything the library may legitimately throw (StepFailed, documented refusal after
 // EndOfSimulation) is caught and classified; no wall-clock verdicts (an evaluation-count
 // cap turns a runaway integration into a counted skip).
@@ -351,6 +361,10 @@ struct SeqOpts {
     }
 };
 
+// CPodes, interpolation disallowed: an event was localized inside a CPODES step and the handler left the state
+// unchanged, so CPODES' internal time stays ahead of the advanced state; later requests in between are refused
+// ("tstop is behind current t") or answered by interpolation.
+static const char* kCpEventKey = "I3:CPodes:CPODES-step-extends-past-localized-event,state-unchanged-by-handler(interp off)";
 static double tinyAbove(double t, Rng& r) {
     double x = t + std::max(std::fabs(t), 1.0) * r.logUni(1e-15, 1e-12);
     if (!(x > t)) x = std::nextafter(t, Inf);
@@ -392,7 +406,7 @@ static void checkC19(Ctx& c, long i, Rng& r) {
         init = osys->realizeTopology(); osys->realizeModel(init); init.setTime(t0);
         sysName = def->cls + (def->wit.empty() ? "" : "+wit");
     } else {
-        GenOpts o; o.minBodies = 1; o.maxBodies = 3; o.types = {MT_Pin, MT_Slider, MT_Ball, MT_Universal, MT_Planar}; o.forceCycle = false; o.pLoneParticle = 0; o.allowWeld = false;
+        GenOpts o; o.minBodies = 1; o.maxBodies = 3; o.types = {MT_Pin, MT_Slider, MT_Ball, MT_Planar}; o.forceCycle = false; o.pLoneParticle = 0; o.allowWeld = false;
         mbs.reset(new Model); mbs->build(randomDesc(r, o, i));
         Force::UniformGravity(mbs->forces, mbs->matter, Vec3(0, -9.8, 0));
         init = mbs->init(); randomQU(*mbs, init, r, false, 1.0); init.setTime(t0);
@@ -453,6 +467,7 @@ static void checkC19(Ctx& c, long i, Rng& r) {
     bool over = false, overByHandler = false, expectStart = true, revived = false;
     int endCount = 0; bool retAtFinal = false, mustEndNext = false;
     double lastEventHigh = -Inf; bool startAtFinal = false; (void)lastEventHigh;
+    bool cpTiny = false, cpEventPending = false;   // CPodes root-cause attribution (see below)
     const int maxCalls = r.integer(18, 34);
     int probesAfterEnd = 0;
 
@@ -502,7 +517,15 @@ static void checkC19(Ctx& c, long i, Rng& r) {
                 ivS = tS - tCur; const double lowS = o.stepperMode ? tCur : tAdv;
                 while (tCur + ivS < lowS) ivS = std::nextafter(ivS, Inf);
                 effS = tCur + ivS;
+                // stepper-like client: the scheduled time is a fixed list entry; if t + (tS - t) does not
+                // reproduce it bit for bit, a later stepTo(tS) would lie behind a legally advanced state (P2)
+                if (o.stepperMode && effS != tS) { useBy = false; effR = tR; effS = tS; }
             }
+        }
+        {   // a request that moves time by less than CPODES can resolve (it answers "too close": the wrapper then
+            // just sets the time, CPodesIntegrator.cpp:418-428)
+            const double res = 1e-9 * std::max(1.0, std::fabs(tCur));
+            if ((effR > tCur && effR - tCur < res) || (effS > tCur && effS - tCur < res)) cpTiny = true;
         }
         const int steps0 = integ->getNumStepsTaken();
         int att0 = 0; try { att0 = integ->getNumStepsAttempted(); } catch (...) {}
@@ -541,7 +564,11 @@ static void checkC19(Ctx& c, long i, Rng& r) {
                 return;
             }
             // a legal request refused without a single step attempt
-            c.viol("exc:" + kn + ":legal-request-refused(" + cl + ")" + ion + ":after-" + prev, wit(firstLine(what, 500)));
+            std::string sit = ":after-" + prev;
+            if (isCPodes && startAtFinal) { c.viol("I3:CPodes:beyond-final-or-invalid-state(after reinitialize at the final time)", wit(firstLine(what, 500))); return; }
+            if (isCPodes && !interpOn && cpEventPending) { c.viol(kCpEventKey, wit("legal request refused: " + firstLine(what, 500))); return; }
+            else if (isCPodes && cpTiny) { c.viol("I1-I6:CPodes:invariant-broken-after-sub-resolution-time-request", wit(firstLine(what, 500))); return; }
+            c.viol("exc:" + kn + ":legal-request-refused(" + cl + ")" + ion + sit, wit(firstLine(what, 500)));
             return;
         }
 
@@ -573,7 +600,7 @@ static void checkC19(Ctx& c, long i, Rng& r) {
         const std::string knownOvershoot = "I3:CPodes:advanced-beyond-scheduled(interp on)";
 
         // ---- I3
-        V("I3:" + kn + ":advanced-beyond-final" + (startAtFinal ? std::string("(after reinitialize at the final time)") : ion), !o.hasFinal || tA <= o.tFinal, "getAdvancedTime() > finalTime at return (" + sn + ")");
+        V("I3:" + kn + ":advanced-beyond-final" + ion, !o.hasFinal || tA <= o.tFinal, "getAdvancedTime() > finalTime at return (" + sn + ")");
         V("I3:" + kn + ":advanced-beyond-scheduled" + ion, tA <= effS, "getAdvancedTime() > scheduledEventTime at return (" + sn + ")");
         if (!interpOn && !isEvent) V("I3:" + kn + ":advanced-beyond-report(interp off)", tA <= std::max(effR, tAdv), "interpolation disallowed but getAdvancedTime() > reportTime (" + sn + ")");
         if (!interpOn && isReport) V("I3:" + kn + ":interpolated-report(interp off)", !interp, "interpolation disallowed but report state is interpolated");
@@ -588,10 +615,7 @@ static void checkC19(Ctx& c, long i, Rng& r) {
         if (!isReport && !isEvent) V("I4:" + kn + ":" + sn + "-state-is-not-the-advanced-state", !interp && t == tA, "non-report return must deliver the advanced state");
         V("I4:" + kn + ":isStateInterpolated-inconsistent:" + sn, interp ? (t <= tA) : (t == tA), "isStateInterpolated() disagrees with getTime() vs getAdvancedTime()");
         // ---- I1
-        {
-            const bool fewUlp = t < tPrevRet && t >= tPrevRet - 4 * std::numeric_limits<double>::epsilon() * std::max(1.0, std::fabs(tPrevRet));
-            V("I1:" + kn + ":time-decreased" + (fewUlp ? "(by a few ulp)" : "") + ":" + sn, t >= tPrevRet, "returned time < previously returned time", Json::obj().set("previous", tPrevRet).set("now", t));
-        }
+        V("I1:" + kn + ":time-decreased:" + sn, t >= tPrevRet, "returned time < previously returned time", Json::obj().set("previous", tPrevRet).set("now", t));
         // ---- I5
         if (isEnd) {
             V("I5:" + kn + ":end-returned-twice", endCount == 0, "second EndOfSimulation");
@@ -614,7 +638,7 @@ static void checkC19(Ctx& c, long i, Rng& r) {
                 V("I6:" + kn + ":window-low-is-not-returned-time", w[0] == t && w[1] == tA && w[0] < w[1], "event window (tLow,tHigh] must have tLow==getTime(), tHigh==getAdvancedTime()", jw);
                 auto inside = [&](double x) { return w[0] < x && x < w[1]; };
                 std::string when = dSteps == 0 ? "(window localized during an earlier call)" : "";
-                V("I6:" + kn + ":report-time-inside-window" + when, !inside(effR), "reportTime strictly inside event window", jw);
+                V("I6:" + (dSteps == 0 && !isCPodes ? std::string("AbstractIntegratorRep") : kn) + ":report-time-inside-window" + when, !inside(effR), "reportTime strictly inside event window", jw);
                 V("I6:" + kn + ":scheduled-time-inside-window" + when, !inside(effS), "scheduledEventTime strictly inside event window", jw);
                 if (o.hasFinal) V("I6:" + kn + ":final-time-inside-window", !inside(o.tFinal), "finalTime strictly inside event window", jw);
                 lastEventHigh = w[1];
@@ -644,7 +668,21 @@ static void checkC19(Ctx& c, long i, Rng& r) {
         {
             const Vector& y = integ->getState().getY(); bool fin = true;
             for (int k = 0; k < y.size(); ++k) if (!std::isfinite(y[k])) fin = false;
+            if (!fin && (o.fixedStep > 0 || kind == IK_SEE) && fails.empty()) {
+                // a user-forced fixed step that is unstable for the problem: the method cannot react; counted, not judged
+                c.obs("fixed-step-blow-up:" + name); c.skip("nonfinite-state-with-forced-fixed-step"); return;
+            }
             V("nan:" + kn + ":state-not-finite:" + sn, fin, "NaN/Inf in returned state");
+        }
+        // ---- CPodes: attribute to the situation that is the root cause (DESIGN 1.5a), then key
+        if (isCPodes && !fails.empty()) {
+            for (auto& f : fails) {
+                if (f.key == knownOvershoot) continue;
+                if (startAtFinal) { f.what += " [first failing invariant: " + f.key + "]"; f.key = "I3:CPodes:beyond-final-or-invalid-state(after reinitialize at the final time)"; }
+                else if (!interpOn && cpEventPending) { f.what += " [first failing invariant: " + f.key + "]"; f.key = kCpEventKey; }
+                else if (cpTiny) { f.what += " [first failing invariant: " + f.key + "]"; f.key = "I1-I6:CPodes:invariant-broken-after-sub-resolution-time-request"; }
+                break;
+            }
         }
         if (!fails.empty()) {
             Json also = Json::arr(); for (size_t k = 1; k < fails.size(); ++k) also.push(fails[k].key);
@@ -668,6 +706,7 @@ static void checkC19(Ctx& c, long i, Rng& r) {
             c.cover(name + "|" + prev + ">" + sn + "|" + bind + "|" + co + "|" + (interpOn ? "I" : "N") + (o.everyStep ? "E" : "-") + (o.stepLimit ? "L" : "-"));
         }
 
+        if (!isEvent && dSteps > 0) cpEventPending = false;   // CPODES has moved on past the event step
         // ---- client model update + event handling (P4)
         tPrevRet = t; prev = sn;
         if (o.hasFinal && t == o.tFinal && !isEnd) retAtFinal = true;
@@ -694,7 +733,9 @@ static void checkC19(Ctx& c, long i, Rng& r) {
             } catch (const std::exception& e) {
                 c.viol("exc:" + kn + ":reinitialize-threw:after-" + sn, wit(firstLine(e.what(), 400))); return;
             }
+            if (isEvent) cpEventPending = true;
             if (lowest < Stage::Report) {
+                cpEventPending = false; cpTiny = false;      // CPODES is re-initialized from the advanced state
                 if (isEnd) revived = true;     // the client did what TimeStepper does after a Termination handler changed the state
                 else { expectStart = true; mustEndNext = false; }
             }
@@ -733,20 +774,21 @@ static void accRange(int kind, int& dLo, int& dHi) {
 // Calibrated constants (10 seeds x 640 cases on the unchanged tree, plain flavour; see the
 // builder's report). R = e / (acc^alpha * (1+rho*T)) observed max: ExplicitEuler 3.0, RK2 0.66,
 // RK3 0.89, RKF 2.4, RKM 0.37, SEE2 0.69, Verlet 0.51, CPodesAdams 12, CPodesBDF 26.
-// "bound" is the generous (>= 30x margin) bound applied to every class; "tight" is 3x the
-// observed max of e / (acc^alpha * rho*T) on the undamped linear oscillator classes, whose
-// natural spread is only ~4x, so that a 10x loss of accuracy is visible.
+// "bound" is the generous (>= 30x margin) bound applied to every class; "tight" is 4x the
+// observed calibration max of e / (acc^alpha * rho*T) (2.5x the max over a 52800-case thorough run)
+// on the undamped linear oscillator classes, whose natural spread is only ~4x, so that a 10x
+// loss of accuracy is visible.
 static double kBound(int kind) { return (kind == IK_CPodesBDF || kind == IK_CPodesAdams) ? 1000 : 100; }
 static double kTight(int kind, const std::string& cls) {
     const bool z = (cls == "lin-osc");
     switch (kind) {
-    case IK_ExplicitEuler: return z ? 3.3 : 5.1;
-    case IK_RK2: return z ? 1.5 : 2.1;
-    case IK_RK3: return z ? 1.1 : 0.92;
-    case IK_RKF: return z ? 1.35 : 1.3;
-    case IK_RKM: return z ? 1.1 : 1.25;
-    case IK_SEE2: return z ? 2.25 : 0.35;
-    case IK_Verlet: return z ? 1.05 : 1.0;
+    case IK_ExplicitEuler: return z ? 4.4 : 6.8;
+    case IK_RK2: return z ? 2.0 : 2.8;
+    case IK_RK3: return z ? 1.5 : 1.25;
+    case IK_RKF: return z ? 1.8 : 1.75;
+    case IK_RKM: return z ? 1.5 : 1.7;
+    case IK_SEE2: return z ? 3.0 : 0.47;
+    case IK_Verlet: return z ? 1.4 : 1.35;
     default: return 0;     // CPodes: variable order, spread too wide for a tight constant
     }
 }
@@ -894,19 +936,27 @@ static void checkC20(Ctx& c, long i, Rng& r) {
         double h0 = rh / rho; int N = std::max(16, (int)std::ceil((T - t0) / h0)); N = (N + 15) / 16 * 16; h0 = (T - t0) / N;
         std::vector<double> samples; for (int k = 9; k <= 15; ++k) samples.push_back(t0 + (T - t0) * k / 16.0);
         c.setPhase("C20 B " + name + " " + cls);
-        double e[3];
-        for (int k = 0; k < 3; ++k) {
+        // "as the step shrinks": if the order seen at (h, h/2, h/4) is deficient the step is halved up to three
+        // more times (pre-asymptotic cancellation of the leading error term is not a violation); the verdict
+        // uses the finest pair measured above the round-off floor.
+        std::vector<double> e; double pBest = 0, p01 = 0; int kUsed = 0;
+        for (int k = 0; k < 6; ++k) {
             // accuracy only matters for Verlet here (tolerance of its functional iteration); the step is fixed
             RunResult x = runSim(c, def, kind, 1e-8, false, h0 / (1 << k), T, samples, false);
             if (!x.ok) { if (x.fail == "threw:eval-cap") { c.skip("eval-cap"); return; } c.viol("run:" + name + ":" + cls + ":fixed-step:" + x.fail, baseWit("fixed-step simulation failed").set("h", h0 / (1 << k))); return; }
-            e[k] = std::max(std::max(x.eEnd, x.eStepMax), x.eInterpMax);
+            e.push_back(std::max(std::max(x.eEnd, x.eStepMax), x.eInterpMax));
+            if (k == 1) p01 = std::log2(e[0] / e[1]);
+            if (k < 2) continue;
+            if (!(e[k] > 1e-11 * (1 + rhoT))) { if (k == 2) { c.skip("order:error-at-roundoff-floor"); return; } e.pop_back(); break; }
+            kUsed = k;
+            pBest = std::max(0.5 * std::log2(e[k - 2] / e[k]), std::log2(e[k - 1] / e[k]));
+            if (pBest >= pDoc - 0.3) break;
         }
-        if (!(e[2] > 1e-11 * (1 + rhoT))) { c.skip("order:error-at-roundoff-floor"); return; }
-        double p01 = std::log2(e[0] / e[1]), p12 = std::log2(e[1] / e[2]), p02 = 0.5 * std::log2(e[0] / e[2]);
         c.cover(name + "|" + cls + "|fixed-step-order");
-        if (calib) fprintf(stderr, "CAL B %s %s pDoc=%d p02=%.3f p01=%.3f p12=%.3f e=%.3g %.3g %.3g rh=%.3g\n", name.c_str(), cls.c_str(), pDoc, p02, p01, p12, e[0], e[1], e[2], rh);
-        c.check("order[" + name + "]:below-documented-order", std::max(0.0, pDoc - std::max(p02, p12)), 0.3,
-                [&] { return baseWit("observed order of convergence from h, h/2, h/4 (max error over 8 sample times)").set("documented_order", pDoc).set("p(h,h/4)", p02).set("p(h,h/2)", p01).set("p(h/2,h/4)", p12).set("h", h0).set("errors", Json::arr().push(e[0]).push(e[1]).push(e[2])); });
+        if (kUsed > 2) c.obs("order:extra-halvings-needed:" + name);
+        if (calib) fprintf(stderr, "CAL B %s %s pDoc=%d p02=%.3f p01=%.3f p12=%.3f kUsed=%d rh=%.3g\n", name.c_str(), cls.c_str(), pDoc, pBest, p01, pBest, kUsed, rh);
+        c.check("order[" + name + "]:below-documented-order", std::max(0.0, pDoc - pBest), 0.3,
+                [&] { return baseWit("observed order of convergence at fixed step h, h/2, h/4, ... (max error over 7 sample times)").set("documented_order", pDoc).set("observed_order_finest_pair", pBest).set("h", h0).set("halvings", kUsed).set("errors", jvec(e)); });
         return;
     }
 
